@@ -194,6 +194,15 @@ def run_leg(res, tier, seed, kinds):
             width = rnd.choice(['~', str(len(names)), str(len(names)), str(len(names) + 1)])
             hdr = 'N' if rnd.random() < 0.15 else 'S' + enc_list(names)
             add(('py', 'js'), 'tablevars %%s %s %s %s %s %s' % (enc_str('a'), enc_str(text), hdr, norm, width), ('flagonly',))
+            # the same passes inside the other input adapters (Model/Variables.lean: iteratorVariablesMap) — the REAL iterators over a table with these column names
+            pfx = rnd.choice('ab')
+            csv_ok = hdr == 'N' or (len(names) > 0 and names != [''] and all('\r' not in n for n in names))
+            add(('py',), 'itervars pandas 0 %s %s %s %s' % (enc_str(pfx), enc_str(text), hdr, norm), None)
+            if csv_ok:
+                add(('py',), 'itervars csv 0 %s %s %s 1' % (enc_str(pfx), enc_str(text), hdr), None)
+                add(('js',), 'itervars csv 1 %s %s %s 1' % (enc_str(pfx), enc_str(text), hdr), None)
+            if hdr != 'N' and len(set(n.lower() for n in names)) == len(names) and all(n and '\x00' not in n for n in names):
+                add(('py',), 'itervars sqlite 0 %s %s %s 1' % (enc_str(pfx), enc_str(text), hdr), None)
 
     # group by implementation; lines with a %s placeholder for the js flag get it filled per implementation
     def vars_canon(line, out):
@@ -205,7 +214,7 @@ def run_leg(res, tier, seed, kinds):
 
     def attr_canon(line, out):
         # parse_attribute_variables of rbql_engine.py walks a `set` of names: the insertion order of its map is arbitrary
-        if (line.startswith('attrvars') or line.startswith('tablevars')) and out.startswith('ok ') and out != 'ok ~':
+        if (line.startswith('attrvars') or line.startswith('tablevars') or line.startswith('itervars')) and out.startswith('ok ') and out != 'ok ~':
             return 'ok ' + ' '.join(sorted(out[3:].split(' ')))
         return out
 
@@ -245,7 +254,7 @@ def run_leg(res, tier, seed, kinds):
             if nbad <= 3:
                 args = l.split(' ')
                 # shrink the text argument (the last but one for colinfos/selinfos, the last otherwise)
-                pos = len(args) - 2 if op in ('colinfos', 'selinfos', 'dictvars', 'attrvars', 'directvars') else (3 if op == 'tablevars' else len(args) - 1)
+                pos = len(args) - 2 if op in ('colinfos', 'selinfos', 'dictvars', 'attrvars', 'directvars') else (3 if op == 'tablevars' else 4 if op == 'itervars' else len(args) - 1)
                 if op == 'joinresolve':
                     res.violations.append({'property': prop, 'impl': impl, 'why': 'resolve_join_variables differs from its model (Model/JoinResolve.lean)', 'op': op, 'line': l, 'model_says': m, 'impl_says': o, 'case_key': '%s|translate|%s|%s|%s' % (prop, impl, op, l)})
                     continue
